@@ -4,6 +4,10 @@ import json, os
 HERE = os.path.dirname(os.path.dirname(os.path.abspath(__file__)))
 
 CHECKS = {
+ 'C10': dict(level='exploration', design='2/C10',
+   technique='bounded-exhaustive enumeration of hostile inputs (raw prefixes, single-site mutations of every phase-legal message, parser corpus mutations, SOCKS byte strings, small-packet floods) executed on the real code under a deterministic work meter (transport-write budget, loop-step horizon, wall-clock watchdog)',
+   text='Every execution feeds one hostile input to a real endpoint (either role) in the phase where it is accepted, after which the application keeps using its channels; the work meter must hold, no exception may reach the loop handler, and a closed connection notifies its owner exactly once. Parsers (DER, every key/certificate format, packet getters, SSHSIG, SOCKS) are fed every truncation and single-byte replacement of a seed corpus and may only raise their documented error. Output amplification is checked by doubling small-packet floods of every line-editor key.',
+   note='time is measured as deterministic work (writes, loop steps) plus a wall-clock watchdog; single-site mutations only; GSS/X.509/PKCS#11 paths not driven.'),
  'C09': dict(level='model_checking', design='2/C09',
    technique='deviation-bounded stateless DFS over packet-delivery order and injected crash/close actions (cut, close/abort/disconnect of either connection, close/abort/exit of the channel on either side) at every quiescent point, real client<->server with outstanding awaits; termination + callback-order oracles at quiescence',
    text='Client programs with outstanding awaits (create_session, stream read/drain, run, SFTP requests, remote port forward, wait_closed) run against six server behaviours; at every quiescent point the explorer delivers either next packet or injects an action; all schedules within the deviation bound end with loss of the connection. Oracles: once CHANNEL_CLOSE went both ways on a live connection the channel is unregistered and its waiters resolved; after connection loss every awaited task is done, session callback words are legal with connection_lost exactly once and nothing after it, owners notified once, no channel/listener/global-request waiter left, no task pending, loop handler silent.',
